@@ -46,7 +46,7 @@ def _case(draw, tier):
         "wrap": [draw(st.integers(0, 2)) if draw(st.booleans()) else 0 for _ in prog["sites"]],
         "join": draw(st.booleans()),
         "tabs": draw(st.sampled_from([False, False, False, True])),
-        "crlf": draw(st.sampled_from([False] * 8 + [True] * 3 + ["mixed"])),
+        "crlf": draw(st.sampled_from([False] * 8 + [True] * 3 + ["cr", "cr", "mixed"])),
         "clean": draw(st.sampled_from([False, False, False, True])),
         "decorator": draw(st.booleans()),
         "strings": draw(st.booleans()),
@@ -125,7 +125,10 @@ def decorate(case):
     elif deco["tabs"]:
         text = "\n".join(_tabify(l) for l in text.split("\n"))
     # the order of sites may have changed by joining lines? joining keeps left-to-right order
-    if deco["crlf"] == "mixed":
+    if deco["crlf"] == "cr":
+        # classic mac line endings: python, pytest and the tool accept them
+        text = text.replace("\n", "\r")
+    elif deco["crlf"] == "mixed":
         # both kinds of line endings in one file (a dos header with unix lines added later)
         ls = text.split("\n")
         text = "".join(l + ("\r\n" if i < 4 else "\n") for i, l in enumerate(ls[:-1])) + ls[-1]
@@ -149,7 +152,7 @@ def _line_length(fmt):
 def harness_is_clean(text, fmt):
     import black
 
-    norm = text.replace("\r\n", "\n")
+    norm = text.replace("\r\n", "\n").replace("\r", "\n")
     try:
         return black.format_str(norm, mode=black.Mode(line_length=_line_length(fmt))) == norm
     except Exception:
